@@ -47,6 +47,12 @@ def skeletons(tier):
     progs.append(("late-helper", {
         "funcs": [mkfunc("R", calls=[call("K")], rich=False), mkfunc("K", kind="plain", reads=["LV"])],
         "vars": {"LV": 3}, "late": ["LV"], "order": ["R", "K"]}))
+    # memento callees living in another package (vfq.lib) are tracked across packages; PLAIN helpers of that other
+    # package are outside the statement ("plain helper functions of the same package"), so the skeleton has none
+    progs.append(("cross-package", {
+        "funcs": [mkfunc("R", calls=[call("G", "xpkg"), call("P")], rich=False), mkfunc("G", module="q", calls=[call("G2")]),
+                  mkfunc("G2", module="q", rich=False), mkfunc("P", kind="plain", calls=[call("G2", "xpkg")], rich=False)],
+        "vars": {}}))
     progs.append(("hidden-from-root", {
         "funcs": [mkfunc("R", calls=[call("D"), call("H", "hidden")], rich=False), mkfunc("D", rich=False), mkfunc("H")],
         "vars": {}, "hidden": True}))
